@@ -576,7 +576,7 @@ static std::string imgdec_line(const std::string& kind, const Bytes& img, const 
                                const std::vector<std::function<std::string(const uint8_t*, size_t)>>& describe) {
   // describe[i]: decode on path i and return the Lean-comparable content (exceptions -> "throw")
   std::ostringstream o;
-  o << "IMGDEC " << kind;
+  o << "IMGDEC " << kind << " size=" << img.size();
   for (size_t pi = 0; pi < describe.size(); ++pi) {
     std::string c;
     try { c = describe[pi](img.data(), img.size()); } catch (const std::exception&) { c = "throw"; }
@@ -841,8 +841,8 @@ static std::string do_sweep(const std::string& kind, const Bytes& img, bool pfx,
 template<class T> static std::string td_img(const char* kind, const Bytes& img) {
   Paths p; p.names = {"bytes", "stream"};
   return imgdec_line(kind, img, p, {
-    [](const uint8_t* d, size_t n) { ExactBlock b(d, n); auto t = tdigest<T>::deserialize(b.p, b.n); return td_basic(t) + " ## " + td_content(t); },
-    [](const uint8_t* d, size_t n) { std::string s((const char*)d, n); std::istringstream is(s, std::ios::binary); auto t = tdigest<T>::deserialize(is); return td_basic(t) + " ## " + td_content(t); }});
+    [](const uint8_t* d, size_t n) { ExactBlock b(d, n); auto t = tdigest<T>::deserialize(b.p, b.n); const std::string bs = td_basic(t); return bs + " ## " + td_content(t); },
+    [](const uint8_t* d, size_t n) { std::string s((const char*)d, n); std::istringstream is(s, std::ios::binary); auto t = tdigest<T>::deserialize(is); const std::string bs = td_basic(t); return bs + " ## " + td_content(t); }});
 }
 template<class T> static std::string den_img(const char* kind, const Bytes& img) {
   Paths p; p.names = {"bytes", "stream"};
